@@ -170,3 +170,81 @@ Proof.
   - (* X *) eexists. split; [reflexivity|]. rewrite ptp_unfold by lia. cbv zeta. cbn [Z.eqb Pos.eqb]. apply zone_back; [exact Hw | exact Ho | apply Hz; left; reflexivity].
   - (* x *) eexists. split; [reflexivity|]. rewrite ptp_unfold by lia. cbv zeta. cbn [Z.eqb Pos.eqb]. apply zone_back; [exact Hw | exact Ho | apply Hz; right; reflexivity].
 Qed.
+
+(* ================= one item of a DateTime pattern ================= *)
+Definition parse_step (now : Z) (part s : text) : res (option (punit * Z) * text) :=
+  if is_literal_part part then (let? s' := remove_literal_part part s in Ok (None, s')) else parse_part now part s.
+Definition apply_exp (st : pdate * ptime) (r : option (punit * Z)) : pdate * ptime :=
+  match r with
+  | Some (u, v) => if is_date_unit u then (set_date (fst st) u v, snd st) else (fst st, set_time (snd st) u v)
+  | None => st
+  end.
+Lemma parse_loop_step now part tl s pd pt :
+  parse_loop (parse_part now) (part :: tl) s pd pt =
+  (let? '(r, s') := parse_step now part s in let st := apply_exp (pd, pt) r in parse_loop (parse_part now) tl s' (fst st) (snd st)).
+Proof.
+  cbn [parse_loop]. unfold parse_step. destruct (is_literal_part part).
+  - destruct (remove_literal_part part s); reflexivity.
+  - destruct (parse_part now part s) as [[[[u v]|] s']| |]; cbn [bind apply_exp]; [destruct (is_date_unit u)| | |]; reflexivity.
+Qed.
+
+Definition item_expected (d n off : Z) (it : pitem) : option (punit * Z) :=
+  match it with
+  | PField c w => if is_date_sym c then expected_date d c else if is_time_sym c then expected_time n off c w else None
+  | _ => None
+  end.
+Definition item_fits (d off : Z) (it : pitem) (rest : text) : Prop :=
+  match it with
+  | PField c w => (is_date_sym c = true -> date_field_ok d c w) /\ field_delim off c w rest
+  | _ => True
+  end.
+
+Lemma sym_not_literal c w : is_sym c = true -> 1 <= w -> is_literal_part (run c w) = false.
+Proof.
+  intros Hs Hw. unfold is_literal_part. rewrite run_first by exact Hw. apply sym_not_special in Hs. unfold NUL, APOS.
+  destruct (Z.eqb_spec c 0); [lia|]. destruct (Z.eqb_spec c 39); [lia|]. reflexivity.
+Qed.
+Lemma char_count_run c w : 0 <= w -> char_count (run c w) = w.
+Proof. intros H. unfold char_count. apply run_len. exact H. Qed.
+Lemma remove_run (c : Z) w rest (a : text) : char_count a = w -> remove_part w (a ++ rest) = Ok rest.
+Proof. intros <-. apply remove_part_app. Qed.
+Lemma repeat_c_count c k : char_count (repeat_c c k) = Z.of_nat k.
+Proof. unfold char_count. rewrite repeat_c_length. reflexivity. Qed.
+
+Lemma item_back now F d n off it rest : in_i32 d -> 0 <= n < NANOS_PER_DAY -> off_ok off ->
+  date_fields_agree F d -> time_fields_agree F n off -> item_ok it = true -> item_fits d off it rest ->
+  render_part (kind_fun 2 d n off) (part_of it) = Ok (render_item 2 F it) /\
+  parse_step now (part_of it) (render_item 2 F it ++ rest) = Ok (item_expected d n off it, rest).
+Proof.
+  intros Hd Hn Ho Ad At Hi Hf. pose proof (part_render 2 F d n off it Ad At Hi) as R. split; [exact R|].
+  destruct it as [c w | c k | txt | k]; cbn [part_of render_item item_expected item_ok item_fits] in *.
+  - (* a field *) apply andb_true_iff in Hi as [Hw Hs]. apply Z.leb_le in Hw. destruct Hf as [Hdf Hdl].
+    unfold parse_step. fold (run c w) in *. rewrite (sym_not_literal c w Hs Hw). unfold parse_part. cbv zeta. rewrite run_first by exact Hw.
+    rewrite date_symbol_eq, time_symbol_eq. unfold render_part in R. rewrite run_first in R by exact Hw.
+    apply sym_not_special in Hs as Hs'. unfold NUL, APOS in R. destruct (Z.eqb_spec c 0); [lia|]. destruct (Z.eqb_spec c 39); [lia|].
+    unfold kind_fun, format_part in R. cbv zeta in R. rewrite run_first in R by exact Hw. rewrite date_symbol_eq, time_symbol_eq in R.
+    unfold understands in *. destruct (is_date_sym c) eqn:Ed.
+    + cbn [orb] in *. destruct (date_sym_back now d c w rest Hd Ed (Hdf eq_refl)) as (txt & E1 & E2).
+      { destruct Hdl as [A B]. split; [exact A|]. intros Hc. exfalso. unfold is_date_sym in Ed. cbn [existsb] in Ed. destruct Hc as [-> | ->]; discriminate Ed. }
+      rewrite E1 in R. injection R as <-. exact E2.
+    + unfold is_sym in Hs. rewrite Ed in Hs. cbn [orb] in Hs. rewrite Hs in *. cbn [orb] in *.
+      destruct (time_sym_back n off c w rest Hn Ho Hs Hw Hdl) as (txt & E1 & E2). rewrite E1 in R. injection R as <-. exact E2.
+  - (* a literal run: k characters are skipped *)
+    rewrite !andb_true_iff, !negb_true_iff in Hi. destruct Hi as (((Hw & Hs) & H39) & H0). apply Z.leb_le in Hw.
+    unfold parse_step. fold (run c k). unfold is_literal_part. rewrite run_first by exact Hw. unfold NUL, APOS. rewrite H0, H39. cbn [orb].
+    unfold parse_part. cbv zeta. rewrite run_first by exact Hw. rewrite date_symbol_eq, time_symbol_eq. unfold is_sym in Hs. apply orb_false_iff in Hs as [Hs1 Hs2].
+    rewrite Hs1, Hs2. fold (run c k). rewrite remove_part_app. reflexivity.
+  - (* quoted text *)
+    unfold parse_step, is_literal_part. cbn [first_char]. unfold NUL, APOS. cbn [Z.eqb Pos.eqb orb]. unfold remove_literal_part. cbv zeta. cbn [first_char].
+    unfold NUL, APOS. cbn [Z.eqb Pos.eqb].
+    assert (Hc : char_count (39 :: map nul_apos txt ++ [39]) = char_count txt + 2).
+    { unfold char_count. cbn [length]. rewrite app_length, map_length. cbn [length]. lia. }
+    rewrite Hc. assert (H1 : (1 <? char_count txt + 2) = true) by (apply Z.ltb_lt; unfold char_count; lia). rewrite H1.
+    change (39 :: map nul_apos txt ++ [39]) with ((39 :: map nul_apos txt) ++ [39]). rewrite rev_app_distr. cbn [rev app Z.eqb Pos.eqb andb].
+    replace (char_count txt + 2 - 1 - 1) with (char_count txt) by lia. rewrite remove_part_app. reflexivity.
+  - (* escaped apostrophes *)
+    apply Z.leb_le in Hi. unfold parse_step, is_literal_part. destruct (Z.to_nat k) eqn:Ek; [lia|]. cbn [repeat_c first_char]. unfold NUL. cbn [Z.eqb orb].
+    unfold remove_literal_part. cbv zeta. cbn [first_char]. unfold NUL. cbn [Z.eqb].
+    change (0 :: repeat_c 0 n0) with (repeat_c 0 (S n0)). change (39 :: repeat_c 39 n0) with (repeat_c 39 (S n0)).
+    rewrite (remove_run 0 (char_count (repeat_c 0 (S n0))) rest (repeat_c 39 (S n0))); [reflexivity|]. rewrite !repeat_c_count. reflexivity.
+Qed.
